@@ -1,12 +1,27 @@
 """C11 - Human-readable message text round-trips to the same datagram; safe-mode parsing never evaluates."""
-from contracts import c11_native
+from contracts import c11_native, c11_contracts
 
 PID = "C11"
-META = {"level": "other", "explanation": "<filled in later by the framework owner>", "trusted_base": []}
+META = {
+    "level": "other",
+    "explanation": (
+        "P (proved on the real body of HumanMessageSerializer.from_human_string, every loop cut by an invariant, regex / pop / "
+        "literal_eval / serializers as declared externals that may return anything): when safe is true subfield_eval (the only "
+        "eval() site) is never called, on any text - the safe-mode clause as a ghost call-log obligation. "
+        "B (bounded, NOT proved): text round trip text -> from_human_string(safe=True) -> datagram body for all 481 templates x "
+        "block counts x {plain, beautified} x 5 replacement tables x hostile payload catalogue (multi-line, quotes, NUL, non-UTF8, "
+        "look-alike syntax), every registered subfield serializer rendered in =| form; safe-mode text fuzz with side-effect / audit-hook "
+        "detectors. Two genuine round-trip defects are recorded as known findings (empty Variable block, State-before-PCode packer)."),
+    "trusted_base": [
+        "ast.literal_eval evaluates literals only (CPython)",
+        "re / str methods are arbitrary-result externals in the proof",
+        "round-trip clause: bounded tier only (formatter, pretty printer and literal parser are out of the VC generator's reach)",
+    ],
+}
 
 
 def register(reg):
-    pass
+    c11_contracts.register_p(reg, PID)
 
 
 BOUNDED = [c11_native.bounded_text_roundtrip, c11_native.bounded_safe_mode]
